@@ -112,6 +112,7 @@ func (b *BExpr) String() string {
 //   - target == "": the function returns one bool; paths `if c { return X }` / `return Y`.
 //   - target != "": assignments `target = E` (contributing pathcond && E); an early
 //     `if c { return }` strengthens the path condition of what follows with !c.
+//
 // ok=false when the body uses a construct outside this fragment.
 func (c *Canon) BoolResult(fd *ast.FuncDecl, target string) (*BExpr, bool) {
 	c.Stmts(fd, nil) // bind names
